@@ -569,6 +569,11 @@ class StructTree(Struct):
     def __init__(self, definition):  # pylint: disable=useless-super-delegation
         super().__init__(definition)
 
+    def has_default(self):
+        # An instance of the base struct itself is not serializable, so it is
+        # never substituted for a missing value.
+        return False
+
 
 class Union(Composite):
     __slots__ = ("definition",)
